@@ -91,15 +91,25 @@ fn one_run(a: &Args, rng: &mut Rng, ctx: &mut Ctx, n_ops: usize) -> Result<(), S
     let dir = a.scratch.join("c11");
     let _ = std::fs::remove_dir_all(&dir);
     let db = abyssiniandb::open_file(&dir).map_err(|e| e.to_string())?;
-    let names = ["m", "m1", "m.key", "mm", "M", "m.val", "1m"];
+    // (names with a path separator live in a sub-directory, which exists; "sub/m" and "sub_m" are different maps)
+    let _ = std::fs::create_dir_all(dir.join("sub"));
+    let names = ["m", "m1", "m.key", "mm", "M", "m.val", "1m", "sub/m", "sub_m"];
     let nmaps = rng.range(2, 5) as usize;
     let mut order: Vec<usize> = (0..names.len()).collect();
     for i in (1..order.len()).rev() {
         order.swap(i, rng.below(i as u64 + 1) as usize);
     }
+    let paired = rng.chance(1, 3);
+    if paired {
+        let a = order.iter().position(|&x| names[x] == "sub/m").unwrap();
+        order.swap(0, a);
+        let b = order.iter().position(|&x| names[x] == "sub_m").unwrap();
+        order.swap(1, b);
+    }
     let mut maps: Vec<M> = Vec::new();
     for j in 0..nmaps {
-        let kt = KT_NAMES[rng.below(5) as usize];
+        // (the pair sub/m, sub_m gets one key type: same-typed maps whose names are close are the hard case)
+        let kt = if paired && j == 1 { maps[0].kt } else { KT_NAMES[rng.below(5) as usize] };
         let cfg = Cfg { buckets: Buckets::Size(*rng.pick(&[1u64, 8, 64, 1024])), key: Buf::PerMille(1000), val: Buf::Auto, htx: Buf::PerMille(1000) };
         let name = names[order[j]].to_string();
         let h = open_dyn(&db, kt, &name, &cfg).map_err(|e| format!("open {name}: {e}"))?;
@@ -147,6 +157,34 @@ fn one_run(a: &Args, rng: &mut Rng, ctx: &mut Ctx, n_ops: usize) -> Result<(), S
             if rng.chance(1, 25) && m.handles.len() > 1 {
                 let i = rng.range(1, m.handles.len() as u64 - 1) as usize;
                 m.handles.remove(i);
+            }
+            // now and then the process runs out of file descriptors while one more map is being created: the attempt
+            // may fail, but the open maps and their handles must stay what they are
+            if rng.chance(1, 150) {
+                let (cur, _max) = crate::sys::get_nofile_limit();
+                let lim = crate::sys::highest_fd() + 1 + rng.below(3);
+                if crate::sys::set_nofile_soft(lim) {
+                    let extra_kt = m.kt;
+                    let r = guarded(crate::session::STEP_BUDGET_BASE, || open_dyn(&db, extra_kt, &format!("zz_extra{done}"), &Cfg::small(8)));
+                    crate::sys::set_nofile_soft(cur);
+                    match r {
+                        Guard::Ok(Ok(h)) => {
+                            drop(h);
+                            ctx.count("fd_exhaustion.create_succeeded", 1);
+                        }
+                        Guard::Ok(Err(_)) => ctx.count("fd_exhaustion.create_failed", 1),
+                        Guard::Hang(_) | Guard::Panic(_) => ctx.count("fd_exhaustion.create_panicked", 1),
+                    }
+                    // every map is looked up by name again: the registry must still hand out the open state
+                    for mm in maps.iter_mut() {
+                        if let Guard::Ok(Ok(h)) = guarded(crate::session::STEP_BUDGET_BASE, || open_dyn(&db, mm.kt, &mm.name, &Cfg::small(4))) {
+                            if mm.handles.len() < 6 {
+                                mm.handles.push((h, "lookup_after_fd_exhaustion"));
+                            }
+                        }
+                    }
+                }
+                continue;
             }
             let hi = rng.below(m.handles.len() as u64) as usize;
             let oi = rng.below(m.handles.len() as u64) as usize;
